@@ -635,7 +635,7 @@ func auxIntersect(r *rand.Rand, n int, emit func(E), stats map[string]int) {
 
 func auxCursor(r *rand.Rand, n int, emit func(E), stats map[string]int) {
 	keyU := [][]byte{[]byte("a"), []byte("ab"), []byte("b"), []byte("b\x00"), []byte("c"), []byte("c\xff"), []byte("\x00"), []byte("\xff")}
-	targets := append([][]byte{[]byte("\x00\x00"), []byte("aa"), []byte("bb"), []byte("\xff\xff"), []byte("b\x00\x00"), []byte("0")}, keyU...)
+	targets := append([][]byte{[]byte("\x00\x00"), []byte("aa"), []byte("bb"), []byte("\xff\xff"), []byte("b\x00\x00"), []byte("0"), {}}, keyU...)
 	dir, _ := os.MkdirTemp(scratchBase(), "verif-cursor-")
 	defer os.RemoveAll(dir)
 	enc := func(kv map[string][]byte) []interface{} {
